@@ -58,6 +58,9 @@ fn random_path() -> BoxedStrategy<PathCase> {
         2 => Just("..".to_string()),
         2 => Just("%2e".to_string()),
         2 => Just("%2E".to_string()),
+        1 => Just("%252E".to_string()),
+        1 => Just("%25".to_string()),
+        1 => Just("%2f".to_string()),
         1 => Just("%2F".to_string()),
         1 => Just("%".to_string()),
         1 => Just("+".to_string()),
@@ -71,7 +74,7 @@ fn random_path() -> BoxedStrategy<PathCase> {
         1 => Just("/../".to_string()),
         1 => Just("/./".to_string()),
     ];
-    (prop_oneof![12 => Just("/".to_string()), 1 => Just(String::new()), 1 => Just("a".to_string())], proptest::collection::vec(piece, 0..14), any::<bool>())
+    (prop_oneof![12 => Just("/".to_string()), 1 => Just(String::new()), 1 => Just("a".to_string()), 1 => Just("*".to_string()), 1 => Just("..".to_string()), 1 => Just("%2F".to_string())], proptest::collection::vec(piece, 0..14), any::<bool>())
         .prop_map(|(lead, pieces, s3)| PathCase { path: format!("{}{}", lead, pieces.concat()), s3 })
         .boxed()
 }
@@ -117,6 +120,10 @@ fn escape_list(_t: Tier) -> Vec<PathCase> {
         }
     }
     for s3 in [false, true] {
+        // targets that are not absolute paths at all
+        for p in ["*", "a", "a/b", ".", "..", "%2F", "%2Fa", "?", "*/", "http://h/p", " /", "\\"] {
+            out.push(PathCase { path: p.to_string(), s3 });
+        }
         for p in ["/%", "/a%", "/%/a", "/a/%", "/é%C3", "/%é", "/%4é", "/%é4"] {
             out.push(PathCase { path: p.to_string(), s3 });
         }
@@ -124,7 +131,7 @@ fn escape_list(_t: Tier) -> Vec<PathCase> {
     out
 }
 
-const ALPHABET: &[&str] = &["", ".", "..", "%2e", "%2E%2e", ".%2E", "a", "%41", "a%2Fb", "~-_.", "*", "%zz"];
+const ALPHABET: &[&str] = &["", ".", "..", "%2e", "%2E%2e", ".%2E", "a", "%41", "a%2Fb", "~-_.", "*", "%zz", "%252E", "%252e%252E"];
 
 fn alphabet_list(t: Tier) -> Vec<PathCase> {
     let max = if t == Tier::Thorough { 5 } else { 4 };
